@@ -154,9 +154,9 @@ def check_reject(model, R, ops):
         for mapping, raises_when, what in REQUIRED_GUARDS.get(f.qualname, []):
             atoms = sorted({a for a, _ in mapping.values()})
             found = False
-            for g in guards:
+            for g, tst in [(g, t) for g in guards for t in (g.test, inline_expr(f.node, g.test))]:
                 try:
-                    if all(E.eval_bool(g.test, E.atom_valuation(mapping, dict(zip(atoms, vals)))) == raises_when(dict(zip(atoms, vals))) for vals in itertools.product((False, True), repeat=len(atoms))) \
+                    if all(E.eval_bool(tst, E.atom_valuation(mapping, dict(zip(atoms, vals)))) == raises_when(dict(zip(atoms, vals))) for vals in itertools.product((False, True), repeat=len(atoms))) \
                             and all(cs is not None and cfg.dominates(g, cs) for cs in call_stmts):
                         found = True
                 except Incomplete:
